@@ -18,7 +18,8 @@ func (c *ConnTap) ForgeShort(sender Dir, payload []byte) ([]byte, error) {
 		return nil, errors.New("wiretap: no 1-RTT keys / connection ID observed for that sender yet")
 	}
 	g := len(gens) - 1
-	pn := uint64(c.largest[sender][2] + 50)
+	c.forged[sender]++
+	pn := uint64(c.largest[sender][2]+50) + c.forged[sender] // successive forged packets get successive numbers
 	first := byte(0x40 | 0x03) // fixed bit, 4-byte packet number
 	if g%2 == 1 {
 		first |= 0x04
@@ -120,6 +121,16 @@ func CryptoFrame(off uint64, data []byte) []byte {
 	b = AppendVarint(b, off)
 	b = AppendVarint(b, uint64(len(data)))
 	return append(b, data...)
+}
+
+// NewConnectionIDFrame encodes a NEW_CONNECTION_ID frame.
+func NewConnectionIDFrame(seq, retirePriorTo uint64, cid []byte, token [16]byte) []byte {
+	b := []byte{0x18}
+	b = AppendVarint(b, seq)
+	b = AppendVarint(b, retirePriorTo)
+	b = append(b, byte(len(cid)))
+	b = append(b, cid...)
+	return append(b, token[:]...)
 }
 
 // StreamFrame encodes a STREAM frame with offset and length fields.
